@@ -119,7 +119,7 @@ for _pid, _rule in (
             "points, single-byte corruptions of header/control bytes, appended junk, random strings; distinct = distinct request"),
 ):
     PROPS[_pid] = {
-        "lean": IMG_LEAN + [f"CocoVerif.Props.{_pid}"] + (["CocoVerif.Props.C19Bytes"] if _pid == "C19" else []),
+        "lean": IMG_LEAN + [f"CocoVerif.Props.{_pid}"] + (["CocoVerif.Props.C19Bytes", "CocoVerif.Props.C19Rle"] if _pid == "C19" else []),
         "lean_extra": ["CocoVerif.Props.Lemmas.Img", "CocoVerif.Model.Img", "CocoVerif.Spec.Img"],
         "suites": [{"name": "img", "relevant": IMG_RELEVANT[_pid], "oracle": OI.ORACLES[_pid],
                     "classify": img_classify}],
@@ -229,7 +229,7 @@ def _c13_oracle(c, i):
 
 
 PROPS["C13"] = {
-    "lean": ["CocoVerif.Props.C13", "CocoVerif.Props.C13Subst"],
+    "lean": ["CocoVerif.Props.C13", "CocoVerif.Props.C13Subst", "CocoVerif.Props.C13Many"],
     "lean_extra": B09_LEAN_EXTRA + ["CocoVerif.Props.Lemmas.ProcBank"],
     "suites": [
         {"name": "b09", "relevant": b09_ok_with_deps, "oracle": _c13_oracle, "classify": c13_classify},
@@ -480,7 +480,7 @@ import suite_expr  # noqa: E402
 
 
 PROPS["C01"] = {
-    "lean": ["CocoVerif.Props.C01", "CocoVerif.Props.C01Front", "CocoVerif.Props.C01Tokens", "CocoVerif.Tie.EcbText"],
+    "lean": ["CocoVerif.Props.C01", "CocoVerif.Props.C01Front", "CocoVerif.Props.C01Tokens", "CocoVerif.Props.C01Signs", "CocoVerif.Tie.EcbText"],
     "lean_extra": B09_LEAN_EXTRA + ["CocoVerif.Spec.Ladder"] + FRONT_LEAN,
     "suites": [{"name": "expr", "relevant": lambda c: True, "oracle": suite_expr.oracle, "classify": suite_expr.classify}]
               + FRONT_SUITES,
@@ -594,6 +594,12 @@ def replay_request(pid, request):
         case = {"fmt": parts[1], "kind": "replay", "req": request, "data": unhex(parts[-1])}
         return OI.c19(case, impl) if pid in ("C18", "C19") else None
     raise ValueError(request)
+
+
+# the regular expressions of procbank.py / grammar.py, the way they are used, and the numeric constants the models carry by
+# hand are regenerated (Gen.Consts) and must equal the pinned copy the models were written against (Tie.Consts)
+for _pid in ("C04", "C06", "C10", "C11", "C13", "C15"):
+    PROPS[_pid]["lean"].append("CocoVerif.Tie.Consts")
 
 
 def replay_witness(f):
